@@ -294,6 +294,10 @@ class TrajectoryStore:
         created: datetime | None = None
         """Creation time global attribute value."""
 
+        file_species: list[list[Species] | None] | None = None
+        """For merged stores, the species in the species dimension of each of
+        the files: these may differ from file to file."""
+
     active_in_thread: int | None = None
     """Thread ID of active TrajectoryStore instance, if any. Multi-threaded
     access is not allowed. This attribute is used to check for this."""
@@ -1490,8 +1494,11 @@ class TrajectoryStore:
             if k[0] != '_':
                 groups[k] = [ds.groups[k] for ds in dataset]
 
-        # Retrieve species actually used in the NetCDF files.
-        species = self._retrieve_nc_species_values(dataset[0])
+        # Retrieve species actually used in the NetCDF files. The files of a
+        # merged store were created independently, so each has its own species
+        # dimension.
+        file_species = [self._retrieve_nc_species_values(ds) for ds in dataset]
+        species = file_species[0]
 
         return TrajectoryStore.NcFiles(
             path=nc_files,
@@ -1502,6 +1509,7 @@ class TrajectoryStore:
             species=species,
             groups=groups,
             size_index=list(itertools.accumulate([len(td) for td in traj_dim])),
+            file_species=file_species,
             title=title,
             comment=comment,
             history=history,
@@ -1670,6 +1678,9 @@ class TrajectoryStore:
             elif index < 0 or index >= len(nc_files.traj_dim[0]):
                 return
             group = nc_files.groups[fs_name][file_index]
+            species = nc_files.species
+            if nc_files.file_species is not None:
+                species = nc_files.file_species[file_index]
 
             # Read data from NetCDF variables.
             for name, field in fs.items():
@@ -1682,7 +1693,7 @@ class TrajectoryStore:
                     group_index,
                     name,
                     field,
-                    nc_files.species or [],
+                    species or [],
                 )
                 data[name] = val
                 # Unset optional fields are read as None and cannot be used
